@@ -293,6 +293,7 @@ struct World {
 	bool wants(const char* prop) const;     // is this property's oracle set enabled under the lens
 	void violate(const std::string& oracle, const std::string& detail, int node = -1, const std::string& tag = "");
 	void probe(const char* name) { if (cov && collect) ++cov->probes[name]; }
+	void probe(const std::string& name) { probe(name.c_str()); }
 	void fault(const char* name) { if (cov && collect) ++cov->faults[name]; }
 	void checked(const char* oracle) { if (cov && collect) ++cov->oracleChecks[oracle]; }
 	void distinct(uint64_t h) { if (cov && collect && cov->distinct.size() < 2000000) cov->distinct.insert(h); }
